@@ -324,6 +324,20 @@ def value_predicates(op, names, facts, lres, rres, ldiff, Lroot):
     if t == "walk" and lok and tree_equal:
         if rres[0] == "runaway" and len(lv) > 1:
             return "C24/walk-never-descends"
+        if rok and rv == [] and lv and op["follow_symlinks"]:
+            # `find -L` exits 1 when a link cannot be followed for a reason other than ENOENT (a path component of
+            # its target is a regular file: ENOTDIR); walk swallows the error and yields nothing at all
+            def _enotdir(q):
+                try:
+                    os.stat(q)
+                except NotADirectoryError:
+                    return True
+                except OSError:
+                    return False
+                return False
+
+            if os.path.isdir(p) and any(os.path.islink(os.path.join(p, n)) and _enotdir(os.path.join(p, n)) for n in os.listdir(p)):
+                return "C24/walk-find-error-yields-nothing"
         if rok and isinstance(rv, list) and rv != lv:
             exp = []
             removed = 0
@@ -542,7 +556,7 @@ DIRECTED = [
     _d(["a\\b", "File1", "data01", "README"], [_F("<0>", "abc\n")], [{"op": "checksum", "path": "<0>"}, {"op": "size", "path": "<0>"}]),
     _d(_B, [_F("<0>", "line\n"), _F("<1>", "üñí✓\n"), _D("<2>")],
        [{"op": "read_text", "path": "<0>", "n": None}, {"op": "read_text", "path": "<1>", "n": 3}, {"op": "read_text", "path": "<1>", "n": 0},
-        {"op": "checksum", "path": "<2>"}, {"op": "checksum", "path": "nx"}, {"op": "checksum", "path": "<0>"},
+        {"op": "read_text", "path": "<2>", "n": 0}, {"op": "checksum", "path": "<2>"}, {"op": "checksum", "path": "nx"}, {"op": "checksum", "path": "<0>"},
         {"op": "write_text", "path": "<2>", "data": "abc"}, {"op": "write_text", "path": "nx/<0>", "data": "abc"}]),
     _d(_B, [_D("<0>"), _F("<0>/<1>", "ab"), ["symlink", "<0>/<2>", "<0>/<1>", False], ["rawlink", "<0>/<3>", "nope"]],
        [{"op": "size", "path": "<0>"}, {"op": "size", "path": "<0>/<2>"},
@@ -561,6 +575,9 @@ DIRECTED = [
         {"op": "mkdir", "path": "p1/p2/<2>", "mode": 0o750, "parents": True, "exist_ok": True}]),
     _d(_B, [_F("<0>"), _F("<1>", "other")],
        [{"op": "symlink_to", "path": "<1>", "target": "<0>"}, {"op": "hardlink_to", "path": "<1>", "target": "<0>"}]),
+    _d(_B, [_D("<0>"), _F("<0>/<1>"), ["rawlink", "<0>/<2>", "<1>/nope"], _F("<0>/<3>")],
+       [{"op": "walk", "path": "<0>", "top_down": True, "follow_symlinks": True},
+        {"op": "walk", "path": "<0>", "top_down": True, "follow_symlinks": False}]),
     _d(["b[ab]c", "File1", "data01", "README"], [_D("<0>"), _F("<0>/<1>"), _D("<2>"), _F("<2>/<1>")],
        [{"op": "glob", "path": "<0>", "pattern": "*"}, {"op": "glob", "path": "<2>", "pattern": "*"}]),
     _d(["a", "b", "data01", "README"], [_D("d"), ["rawlink", "d/<0>", "nope"], _F("d/<1>")],
